@@ -49,8 +49,9 @@ XilinxVivado::XilinxVivado()
 
 void XilinxVivado::prepareCircuit(hlim::Circuit &circuit)
 {
-	for (auto &n : circuit.getNodes()) {
-		if (auto *pa = dynamic_cast<hlim::Node_PathAttributes*>(n.get())) {
+	// index loop: getCreateAttribNode may create nodes, which invalidates iterators into the node list
+	for (auto idx : utils::Range(circuit.getNodes().size())) {
+		if (auto *pa = dynamic_cast<hlim::Node_PathAttributes*>(circuit.getNodes()[idx].get())) {
 
 			// Keep start and end driver of all paths
 			for (unsigned i = 0; i < 2; i++) {
